@@ -13,9 +13,12 @@
    Component traces may contain, besides the operations of singleChannelCacheImpl, runs of the real
    changesFeed goroutine (db/changes.go) over the cache under test with a chosen ChannelQueryLimit
    (FD), reads of a real bypassChannelCache sharing the query handler (BG) and changesFeed over that
-   bypass cache (BF); their rows are compared with ChangesFeed.v. *)
+   bypass cache (BF); their rows are compared with ChangesFeed.v.
+   CNotify: one call of the real channelCacheImpl.AddToCache: the channels that have a cache, the
+           entry's sequence and channel map, the channel ids returned (sorted) and the caches that
+           received the entry: Notify.v must predict both. *)
 From SG Require Export Base.Prelude C20.SeqIdGen C20.SeqId C20.SeqIdCodec C01.ChanCache C01.Merge C01.Visible.
-From SG Require Export C01.VisibleTok C01.ChangesFeed.
+From SG Require Export C01.VisibleTok C01.ChangesFeed C01.Notify.
 Open Scope N_scope.
 
 Definition E (s d r : N) (rm del : bool) : entry := mkE s d r rm del.
@@ -90,13 +93,18 @@ Definition sys_ok (hist : list hop) (qr : req * list row) : bool :=
 Inductive case :=
 | CComp (vf0 maxl minl : N) (steps : list (xop * cobs))
 | CMerge (feeds : list (list row)) (ao : bool) (hi limit low : N) (out : list row)
-| CSys (hist : list hop) (reqs : list (req * list row)).
+| CSys (hist : list hop) (reqs : list (req * list row))
+| CNotify (active : list N) (seq : N) (chs : list (N * option N)) (notified : list N) (adds : list (N * bool)).
 
 Definition check (c : case) : bool :=
   match c with
   | CComp vf0 maxl minl steps => comp_ok (init_sys vf0 (N.to_nat maxl) (N.to_nat minl)) steps
   | CMerge feeds ao hi limit low out => rows_eqb (merge_feeds feeds ao hi (N.to_nat limit) low) out
   | CSys hist reqs => forallb (sys_ok hist) reqs
+  | CNotify active seq chs notified adds =>
+      let r := add_to_cache_all active seq chs in
+      list_eqb N.eqb (fst r) notified
+      && list_eqb (fun a b => (fst a =? fst b) && Bool.eqb (snd a) (snd b)) (snd r) adds
   end.
 
 Definition mismatches (cs : list case) : list N := failing check cs.
